@@ -57,3 +57,62 @@ Theorem C04_skippable_frame_then_stream : forall cfg d variant payload rest c it
   R cfg d (enc_skippable variant payload ++ rest) = Ok (c, FSkip (lenN payload) :: items).
 Proof. exact R_skippable_then_stream. Qed.
 Print Assumptions C04_skippable_frame_then_stream.
+
+(* ---- round 2: the specified content does not depend on which of the equivalent spellings of a field the producer chose
+   (the bundled compressor always writes the shortest; the independent frame writer of the check, zv/props/c04_enc.py, writes them all) ---- *)
+From Coq Require Import Lia.
+From ZV.Codec Require Import Block C04Forms.
+
+(* Number_of_Sequences on one, two or three bytes: every admissible form reads back the count (the two-byte form overlaps the one-byte form,
+   0 included: 80 00) *)
+Theorem C04_number_of_sequences_any_form : forall f n t, nbseq_form_ok f n -> read_nbseq (nbseq_form f n ++ t) = Ok (n, t).
+Proof. exact read_nbseq_any_form. Qed.
+Print Assumptions C04_number_of_sequences_any_form.
+Example C04_nbseq_forms_satisfiable :
+  nbseq_form_ok 1 5 /\ nbseq_form_ok 2 5 /\ nbseq_form_ok 2 0 /\ nbseq_form_ok 3 32512 /\ nbseq_form 2 0 = [128; 0] /\ nbseq_form 2 5 = [128; 5].
+Proof. unfold nbseq_form_ok. repeat split; try lia; reflexivity. Qed.
+
+(* raw / RLE literals: a header of any width that can hold the size regenerates the same literals *)
+Theorem C04_raw_literals_any_header_width : forall blockMax huf w lits tail,
+  lit_hdr_w_ok w (lenN lits) -> lenN lits <= blockMax ->
+  decode_literals blockMax huf (lit_hdr_w 0 w (lenN lits) ++ lits ++ tail) = Ok (lits, huf, w + lenN lits, 0).
+Proof. exact decode_lits_raw_any_width. Qed.
+Print Assumptions C04_raw_literals_any_header_width.
+Theorem C04_rle_literals_any_header_width : forall blockMax huf w v n tail,
+  lit_hdr_w_ok w n -> n <= blockMax ->
+  decode_literals blockMax huf (lit_hdr_w 1 w n ++ [v] ++ tail) = Ok (repeatN v n [], huf, w + 1, 1).
+Proof. exact decode_lits_rle_any_width. Qed.
+Print Assumptions C04_rle_literals_any_header_width.
+Example C04_literals_widths_satisfiable : lit_hdr_w_ok 1 5 /\ lit_hdr_w_ok 2 5 /\ lit_hdr_w_ok 3 5 /\ lit_hdr_w 0 3 5 = [92; 0; 0].
+Proof. unfold lit_hdr_w_ok. repeat split; try lia; reflexivity. Qed.
+
+(* Repeat_Mode re-uses the table in force whatever produced it - also an RLE table, also the predefined one - and reads nothing *)
+Theorem C04_repeat_mode_reuses_the_table_in_force : forall maxSV maxLog deflog defnorm t src,
+  seq_table 3 maxSV maxLog deflog defnorm (Some t) src = Ok (t, src).
+Proof. exact seq_table_repeat. Qed.
+Print Assumptions C04_repeat_mode_reuses_the_table_in_force.
+Theorem C04_repeat_mode_after_rle_mode : forall maxSV maxLog deflog defnorm s tail src2, s <= maxSV ->
+  exists t, seq_table 1 maxSV maxLog deflog defnorm None ([s] ++ tail) = Ok (t, tail) /\
+            seq_table 3 maxSV maxLog deflog defnorm (Some t) src2 = Ok (rle_table s, src2).
+Proof. exact seq_table_repeat_after_rle. Qed.
+Print Assumptions C04_repeat_mode_after_rle_mode.
+
+(* a compressed block without sequences in every spelling (literals header width x Number_of_Sequences 00 / 80 00) regenerates exactly its
+   literals and leaves tables, repeat offsets and Huffman tree as they were *)
+Theorem C04_literals_only_block_any_spelling : forall strict window blockMax e x w f lits,
+  lit_hdr_w_ok w (lenN lits) -> (f = 1 \/ f = 2) -> lenN lits <= blockMax ->
+  exists bt,
+    decode_cblock strict window blockMax e x (lit_hdr_w 0 w (lenN lits) ++ lits ++ nbseq_form f 0) =
+      Ok (e, push_fwd {| x_hist := x_hist x; x_marks := x_marks x; x_avail := x_avail x; x_pos := x_pos x; x_blk := 0 |} lits (lenN lits), bt)
+    /\ bt_rsize bt = lenN lits /\ bt_seqs bt = [].
+Proof. exact decode_cblock_literals_only. Qed.
+Print Assumptions C04_literals_only_block_any_spelling.
+
+(* Frame_Content_Size of a single-segment frame on 1, 2, 4 or 8 bytes: same window, same declared size *)
+Theorem C04_content_size_field_any_width : forall k v rest, ss_width_ok k v ->
+  exists h, parse_fheader false (ss_header k v ++ rest) = Ok (h, rest) /\
+            fh_window h = v /\ fh_fcs h = Some v /\ fh_single h = true /\ fh_checksum h = false /\ fh_dictid h = 0.
+Proof. exact parse_ss_header. Qed.
+Print Assumptions C04_content_size_field_any_width.
+Example C04_content_size_widths_satisfiable : ss_width_ok 1 7 /\ ss_width_ok 4 7 /\ ss_width_ok 8 7 /\ ss_width_ok 2 300.
+Proof. unfold ss_width_ok. repeat split; lia. Qed.
